@@ -1,13 +1,13 @@
-(* handlers/ToolRun.ml — toolrun <tool 0|1> <algo> <mb> <hdr> <ms> <ik> <ies> <hlen> <fast> <ignore_size> <window> <db> <tree: path,content,...>
+(* handlers/ToolRun.ml — toolrun <tool 0|1> <algo> <mb> <hdr> <ms> <ik> <ies> <hlen> <fast> <ignore_size> <window> <erasure symbol | 256> <db> <tree: path,content,...>
    <hash table: msg,hash,...> <dk> <dm> <dp> <df> <drm> <drp> <file sizes> <mu tables "a,b;c,d">
    -> "<processed,corrupted,full,partial,skipped,exit | CRASH> <output folder: path:content,... | .>" *)
 let () = register "toolrun" (function
-  | [tool; algo; mb; hdr; ms; ik; ies; hlen; fast; ign; w; db; tree; htab; dk; dm; dp; df; drm; drp; musz; mutb] ->
+  | [tool; algo; mb; hdr; ms; ik; ies; hlen; fast; ign; w; er; db; tree; htab; dk; dm; dp; df; drm; drp; musz; mutb] ->
       let nl_ s = List.map n_of_int (ints_of_arg s) in
       let tabs = if mutb = "." then [] else
         List.map (fun s -> List.map n_of_int (ints_of_arg s)) (String.split_on_char ';' mutb) in
       let (ctr, outs) =
-        drv_toolrun (ni tool) (ni algo) (ni mb) (ni hdr) (ni ms) (ni ik) (ni ies) (ni hlen) (ni fast) (ni ign) (ni w)
+        drv_toolrun (ni tool) (ni algo) (ni mb) (ni hdr) (ni ms) (ni ik) (ni ies) (ni hlen) (ni fast) (ni ign) (ni w) (ni er)
           (bytes_of_hex db) (list_of_arg tree) (list_of_arg htab)
           (nl_ dk) (list_of_arg dm) (list_of_arg dp) (nl_ df) (list_of_arg drm) (list_of_arg drp) (nl_ musz) tabs in
       let cs = match ctr with None -> "CRASH" | Some l -> String.concat "," (List.map (fun x -> string_of_int (int_of_n x)) l) in
